@@ -1388,6 +1388,13 @@ def product(ctx):
                               "budget": b}
                              for alg in ("rls", "fea")
                              for s in seeds_for(inst) for b in budgets])
+    # an instance whose total item area is an exact multiple of the bin area
+    # (the geometric bin bound sits on a division boundary)
+    for enc in (1, 2):
+        jobs.append([{"family": "bp", "alg": "rls", "obj": OBJ_NAMES[0],
+                      "enc": enc, "inst": "asqas03", "seed": s, "budget": b}
+                     for s in list(seeds_for("asqas03"))[:2]
+                     for b in budgets])
     for inst in (TTP_Q if q else TTP_T):
         for su in TTP_SETUPS:
             jobs.append([{"family": "ttp", "setup": su, "inst": inst,
